@@ -394,6 +394,17 @@ theorem witness_program_info_templates (s p : List UInt8) :
     (extractWitnessV1KeyBytes s = some p → witnessProgramInfo s = some (1, p)) :=
   Lemmas.witnessProgramInfo_templates s p
 
+/-- `NullDataScript d` is recognised as null data (by both recognisers, see `template_classes_disjoint`) for every
+payload up to the 80-byte limit — except the one-byte payload 0x81, which the builder encodes as OP_1NEGATE, an
+opcode the recogniser does not accept (see the witness below) -/
+theorem nullDataScript_recognised (d : List UInt8) (hl : d.length ≤ 80) (h81 : d ≠ [0x81]) :
+    ∃ s, nullDataScript d = some s ∧ isNullData s = true :=
+  Lemmas.nullDataScript_recognised d hl h81
+
+theorem nullDataScript_0x81_not_recognised :
+    nullDataScript [0x81] = some [0x6a, 0x4f] ∧ isNullData [0x6a, 0x4f] = false ∧ nullDataScript (List.replicate 81 0) = none := by
+  decide
+
 /-! ### constants regenerated from the compiled tree (T2) -/
 
 theorem pin_names : Spec.nets.map (·.name) =
